@@ -1112,8 +1112,7 @@ impl CompositionGraph {
     ///
     /// Returns `None` if there is no node exported by that name.
     pub fn get_export(&self, name: &str) -> Option<NodeId> {
-        // Export names are the same name when they differ only in case
-        find_extern_name(&self.exports, name).map(|(_, i)| NodeId(*i))
+        self.exports.get(name).map(|i| NodeId(*i))
     }
 
     /// Unmarks the given node from being exported from an encoding of the graph.
